@@ -1,5 +1,5 @@
 (* C15 - Decimal128 conversions are exact within the declared precision and scale. *)
-From Verif Require Import DecimalCodec DecimalCodec_proofs DecimalExact_proofs DecimalFormat_proofs.
+From Verif Require Import DecimalCodec DecimalCodec_proofs DecimalExact_proofs DecimalFormat_proofs Constants ConstantsSpec.
 
 (* Full-strength statement (kept visible; the parts proved so far are below, the remainder is
    evaluated as the specification oracle `RunC15.oracle` on every implementation output):
@@ -69,6 +69,10 @@ Example C15_examples :
   format_decimal 12345 3 = Ok (b "12.345").
 Proof. vm_compute. repeat split; reflexivity. Qed.
 
+(* the digit buffer of the model has the size the source declares (BUFFER_SIZE_I128, regenerated on every run) *)
+Theorem C15_buffer_matches_source : BUF = buffer_size_i128.
+Proof. exact (proj1 (proj2 (proj2 constants_match))). Qed.
+
 Print Assumptions C15_full_proved.
 Print Assumptions C15_format_total.
 Print Assumptions C15_format_exact.
@@ -76,3 +80,4 @@ Print Assumptions C15_format_parse_roundtrip.
 Print Assumptions C15_parse_no_panic.
 Print Assumptions C15_format_no_panic.
 Print Assumptions C15_parse_within_precision.
+Print Assumptions C15_buffer_matches_source.
